@@ -42,6 +42,13 @@ func (c *Concat) Apply(inputs []tensor.Tensor) ([]tensor.Tensor, error) {
 		return inputs, nil
 	}
 
+	// All inputs must have the same element type (the tensor library panics otherwise).
+	for i, input := range inputs[1:] {
+		if input.Dtype() != inputs[0].Dtype() {
+			return nil, ops.ErrInvalidInputType(i+1, input.Dtype().Name(), c)
+		}
+	}
+
 	rank := len(inputs[0].Shape())
 	if c.axis < -rank || c.axis >= rank {
 		return nil, ops.ErrAxisOutOfRange(rank, rank, c.axis)
